@@ -39,6 +39,19 @@ Theorem C05_progress_partial : forall c s w r x, target s w = Some (r, x) ->
 Proof. exact delivery_enabled. Qed.
 Print Assumptions C05_progress_partial.
 
+(* no deadlock: with a started engine, time able to elapse, stores that answer (every [LSEnd] is enabled
+   by construction) and no abandoned channel among the in-flight requests, the engine itself has an
+   enabled step as long as a request is in flight - the cases accepted-before-Start, racing-with-Stop,
+   empty and unmarshalable are ordinary states of the LTS.
+   PARTIAL: the decreasing measure that turns this into "eventually answered" under weak fairness
+   is not formalised. *)
+Theorem C05_progress_enabled_partial : forall c s, cfg_wf c -> reachable c s -> started s = true -> c_timeless c = false ->
+  pipeline s <> [] ->
+  (forall r, In r (pipeline s) -> chan_of s r <> Some ChAbandon) ->
+  exists l s', internal l /\ step c s l = Some s'.
+Proof. exact no_deadlock. Qed.
+Print Assumptions C05_progress_enabled_partial.
+
 (* the pinned tree (before fix D6): never-started engine, Stop returns nil, the batch is never answered *)
 Theorem C05_graceful_pinned_D6_refuted :
   exists s, reachable (cfg0 true false true) s /\ stop_returned s = Some RNil /\
